@@ -209,6 +209,8 @@ def start_watchdog(ctx):
     except OSError:
         pass
 
+    import threading
+
     def loop():
         while True:
             time.sleep(5)
@@ -224,7 +226,17 @@ def start_watchdog(ctx):
                     why = "the check's processes hold %.0f GB of memory (under 3 GB on the unchanged tree): an operation of the implementation allocates without bound" % (kb / 1048576.0)
             if why:
                 try:
-                    path = write_replay(ctx.prop, {"property": ctx.prop, "no_failing_input_found": True, "what": why, "seed": ctx.seed, "tier": ctx.tier, "notes": ctx.notes[-10:]})
+                    # where every thread of the check stands (which call of the implementation does not return)
+                    where = []
+                    try:
+                        import traceback
+
+                        for tid, fr in sys._current_frames().items():
+                            if tid != threading.get_ident():
+                                where.append(["%s:%d %s" % (os.path.basename(f.filename), f.lineno, f.name) for f in traceback.extract_stack(fr)[-12:]])
+                    except Exception:
+                        pass
+                    path = write_replay(ctx.prop, {"property": ctx.prop, "no_failing_input_found": True, "what": why, "seed": ctx.seed, "tier": ctx.tier, "notes": ctx.notes[-10:], "threads_at_timeout": where})
                     print("VIOLATION property=%s replay=%s no-failing-input-found" % (ctx.prop, path), flush=True)
                     print("  " + why, flush=True)
                 finally:
